@@ -51,3 +51,274 @@ def swapped_arguments(repo: Repo, prefixes: Iterable[str]
                         hits.append((f, c, cal, a, names[j]))
                         break
     return n, hits
+
+
+# ---------------------------------------------------------------------------
+# like-for-like copies
+
+COPY_OK = {
+    ('edb.edgeql.compiler.stmtctx.init_context',
+     'toplevel_result_view_name', 'result_view_name'):
+        'option name differs from the context field by design',
+    ('edb.edgeql.tracer.TracerContext.get_ref_name', 'current_module',
+     'module'): 'parameter of resolve_name is called current_module',
+    ('edb.edgeql.compiler.config.compile_ConfigSet', 'name', 'param_name'):
+        'IR field `name` holds the validated parameter name',
+    ('edb.edgeql.compiler.config.compile_ConfigReset', 'name', 'param_name'):
+        'same', 
+    ('edb.edgeql.compiler.config.compile_ConfigInsert', 'name',
+     'param_name'): 'same',
+    ('edb.edgeql.compiler.stmt.compile_DeleteQuery', 'result', 'subject'):
+        'DELETE is desugared into a SELECT of its subject',
+    ('edb.server.compiler.compiler.Compiler.compile',
+     'expected_cardinality_one', 'expect_one'): 'renamed option',
+    ('edb.server.compiler.compiler.Compiler.compile_in_tx',
+     'expected_cardinality_one', 'expect_one'): 'renamed option',
+    ('edb.server.compiler.sql.resolve_query', 'current_query', 'query_str'):
+        'renamed option',
+}
+
+
+def copy_mismatches(repo: Repo, prefixes: Iterable[str]):
+    """In a function that copies >= 3 attributes like-for-like between two
+    objects (a.x = b.x, or Ctor(x=b.x, ...)), a copy whose names differ
+    (a.weak_refs = b.refs) is a copy-paste slip unless audited."""
+    import collections
+    from .model import walk_no_nested
+    n = 0
+    hits = []
+    for m in repo.modules.values():
+        if not m.name.startswith(tuple(prefixes)):
+            continue
+        for f in repo._funcs_of(m):
+            pairs = []
+            for a in walk_no_nested(f.node):
+                if isinstance(a, ast.Assign) and len(a.targets) == 1 \
+                        and isinstance(a.targets[0], ast.Attribute) \
+                        and isinstance(a.value, ast.Attribute) \
+                        and isinstance(a.targets[0].value, ast.Name) \
+                        and isinstance(a.value.value, ast.Name) \
+                        and a.targets[0].value.id != a.value.value.id:
+                    pairs.append(((a.targets[0].value.id, a.value.value.id),
+                                  a.targets[0].attr, a.value.attr))
+            for c in ast.walk(f.node):
+                if isinstance(c, ast.Call):
+                    for k in c.keywords:
+                        if k.arg and isinstance(k.value, ast.Attribute) \
+                                and isinstance(k.value.value, ast.Name):
+                            pairs.append(((id(c), k.value.value.id), k.arg,
+                                          k.value.attr))
+            by = collections.defaultdict(list)
+            for key, x, y in pairs:
+                by[key].append((x, y))
+            for key, ps in by.items():
+                same = [p for p in ps if p[0] == p[1]]
+                need = 3 if isinstance(key[0], str) else 4
+                if len(same) < need:
+                    continue
+                n += 1
+                for x, y in ps:
+                    if x != y and (f.qualname, x, y) not in COPY_OK:
+                        hits.append((f, x, y))
+    return n, hits
+
+
+# ---------------------------------------------------------------------------
+# mirrored statements
+
+MIRROR_PAIRS = [('left', 'right'), ('our', 'their'), ('self', 'other'),
+                ('source', 'target'), ('lhs', 'rhs'), ('larg', 'rarg'),
+                ('old', 'new'), ('lower', 'upper'), ('start', 'stop')]
+_COMPOUND = (ast.FunctionDef, ast.AsyncFunctionDef, ast.ClassDef, ast.If,
+             ast.For, ast.While, ast.With, ast.Try)
+
+
+def _tokens(t: str):
+    import re
+    return re.findall(r'[A-Za-z_][A-Za-z_0-9]*|\S', t)
+
+
+def mirror_slips(repo: Repo, prefixes: Iterable[str]):
+    """Two neighbouring simple statements where the second is the first
+    with every A-name replaced by its B-name (left/right, our/their, ...)
+    except for an A-name that survived."""
+    n = 0
+    hits = []
+    for m in repo.modules.values():
+        if not m.name.startswith(tuple(prefixes)):
+            continue
+        for f in repo._funcs_of(m):
+            for blk in ast.walk(f.node):
+                body = getattr(blk, 'body', None)
+                if not isinstance(body, list):
+                    continue
+                for i, s1 in enumerate(body):
+                    if not isinstance(s1, ast.stmt) or isinstance(
+                            s1, _COMPOUND):
+                        continue
+                    a = _tokens(norm(s1))
+                    for A, B in MIRROR_PAIRS:
+                        if not any(A in t for t in a) or any(
+                                B in t for t in a):
+                            continue
+                        for s2 in body[i + 1:i + 3]:
+                            if isinstance(s2, _COMPOUND):
+                                continue
+                            b = _tokens(norm(s2))
+                            if len(a) != len(b) or not any(
+                                    B in t for t in b):
+                                continue
+                            want = [t.replace(A, B) if A in t else t
+                                    for t in a]
+                            diff = [(x, y) for x, y in zip(want, b)
+                                    if x != y]
+                            if len(diff) > 2:
+                                continue
+                            n += 1
+                            slip = [(x, y) for x, y in diff if A in y]
+                            if slip:
+                                hits.append((f, s2, slip))
+    return n, hits
+
+
+# ---------------------------------------------------------------------------
+# loops
+
+RESIZE_OK = {
+    'edb.server.compiler_pool.queue.WorkerQueue.acquire':
+        'returns immediately after removing the chosen worker',
+}
+
+
+def loop_slips(repo: Repo, prefixes: Iterable[str]):
+    """(a) a for/while ... else whose loop body can neither break nor
+    return: the else arm always runs (usually a dedent slip that moved the
+    last statement of the body out of the loop);  (b) a container shrunk
+    (or inserted into) while a for loop iterates over it."""
+    from .model import walk_no_nested
+    n = 0
+    hits = []
+    for m in repo.modules.values():
+        if not m.name.startswith(tuple(prefixes)):
+            continue
+        for f in repo._funcs_of(m):
+            for l in walk_no_nested(f.node):
+                if not isinstance(l, (ast.For, ast.While)):
+                    continue
+                n += 1
+                if l.orelse and not any(
+                        isinstance(x, (ast.Break, ast.Return))
+                        for b in l.body for x in ast.walk(b)):
+                    hits.append((f, l, 'else arm of a loop that never '
+                                       'breaks: it always runs'))
+                if isinstance(l, ast.For) and isinstance(
+                        l.iter, (ast.Name, ast.Attribute)) \
+                        and f.qualname not in RESIZE_OK:
+                    v = norm(l.iter)
+                    for b in l.body:
+                        for x in ast.walk(b):
+                            if isinstance(x, ast.Call) and isinstance(
+                                    x.func, ast.Attribute) and \
+                                    x.func.attr in ('remove', 'pop', 'insert',
+                                                    'clear', 'discard') \
+                                    and norm(x.func.value) == v:
+                                hits.append((f, l, f'`{norm(x)[:40]}` '
+                                             f'while iterating {v}'))
+                            if isinstance(x, ast.Delete) and any(
+                                    isinstance(t, ast.Subscript) and
+                                    norm(t.value) == v for t in x.targets):
+                                hits.append((f, l, f'`{norm(x)[:40]}` '
+                                             f'while iterating {v}'))
+    return n, hits
+
+
+def battery(repo: Repo, ctx, rule: str, prefixes: Iterable[str],
+            consequence: str) -> None:
+    """Run the slip patterns over the packages a property is anchored in.
+    Every pattern has been confirmed to have no unaudited instance on the
+    tree the rules were written against."""
+    prefixes = list(prefixes)
+    ctx.floor(rule, 4)
+    n, hits = swapped_arguments(repo, prefixes)
+    ctx.ob(rule, 'slips:argument-alignment', not hits,
+           '; '.join(f'{f.qualname} passes `{a}` and `{b}` to {cal.name} '
+                     f'each in the position of the parameter named like the '
+                     f'other' for f, c, cal, a, b in hits[:3]) +
+           f' -- {consequence}', hits[0][0].loc if hits else '',
+           sample=f'{n} resolved call sites')
+    n, hits = copy_mismatches(repo, prefixes)
+    ctx.ob(rule, 'slips:like-for-like-copies', not hits,
+           '; '.join(f'{f.qualname} copies `{y}` into `{x}` among '
+                     f'like-for-like copies' for f, x, y in hits[:3]) +
+           f' -- {consequence}', hits[0][0].loc if hits else '',
+           sample=f'{n} copy groups')
+    n, hits = mirror_slips(repo, prefixes)
+    ctx.ob(rule, 'slips:mirrored-statements', not hits,
+           '; '.join(f'{f.qualname}: `{norm(s2)[:60]}` mirrors the statement '
+                     f'before it except for {slip}' for f, s2, slip in
+                     hits[:3]) + f' -- {consequence}',
+           hits[0][0].loc if hits else '', sample=f'{n} mirrored pairs')
+    n, hits = loop_slips(repo, prefixes)
+    ctx.ob(rule, 'slips:loops', not hits,
+           '; '.join(f'{f.qualname}:{l.lineno - f.node.lineno}: {why}'
+                     for f, l, why in hits[:3]) + f' -- {consequence}',
+           hits[0][0].loc if hits else '', sample=f'{n} loops')
+
+
+SCOPE = {
+    'C01': (['edb.edgeql.codegen', 'edb.edgeql.quote', 'edb.common.ast'],
+            'the printed text no longer re-parses to the same tree'),
+    'C02': (['edb.schema'],
+            'the computed migration does not reach the target schema'),
+    'C03': (['edb.schema', 'edb.edgeql.compiler.normalization',
+             'edb.edgeql.codegen'],
+            'DESCRIBE output does not rebuild the same schema'),
+    'C04': (['edb.schema'],
+            'an index of the schema store goes stale or an earlier version '
+            'changes'),
+    'C05': (['edb.pgsql.delta', 'edb.pgsql.types', 'edb.pgsql.common',
+             'edb.pgsql.schemamech', 'edb.pgsql.dbops',
+             'edb.pgsql.deltadbops'],
+            'backend storage diverges from the schema'),
+    'C06': (['edb.edgeql.compiler.inference', 'edb.ir'],
+            'an inferred bound is unsound'),
+    'C07': (['edb.edgeql.compiler.policies', 'edb.edgeql.compiler.setgen',
+             'edb.edgeql.compiler.stmtctx', 'edb.pgsql.compiler.relctx',
+             'edb.pgsql.compiler.pathctx', 'edb.pgsql.compiler.context'],
+            'a read path escapes the access policies'),
+    'C08': (['edb.server.compiler.compiler', 'edb.server.compiler.ddl',
+             'edb.server.compiler.dbstate', 'edb.server.compiler.enums',
+             'edb.edgeql.compiler.inference.volatility',
+             'edb.edgeql.compiler.func', 'edb.schema.functions'],
+            'a statement is given capabilities that do not cover it'),
+    'C09': (['edb.server.compiler.compiler', 'edb.server.compiler.dbstate',
+             'edb.server.compiler.ddl'],
+            'compiler session state diverges from the transaction'),
+    'C11': (['edb.edgeql.declarative', 'edb.edgeql.tracer',
+             'edb.schema.ddl'],
+            'the result depends on declaration order'),
+    'C12': (['edb.edgeql.compiler', 'edb.schema.types', 'edb.schema.casts',
+             'edb.schema.utils', 'edb.schema.scalars'],
+            'an inferred type does not cover the evaluated values'),
+    'C13': (['edb.pgsql.compiler', 'edb.pgsql.codegen'],
+            'the generated SQL is ill-scoped or not deterministic'),
+    'C14': (['edb.server.compiler.sertypes'],
+            'a descriptor misdescribes the type'),
+    'C15': (['edb.server.connpool.pool'], 'the pool oversubscribes'),
+    'C16': (['edb.server.connpool.pool'], 'a request can wait forever'),
+    'C17': (['edb.server.compiler_pool'],
+            'a worker compiles against stale state'),
+    'C18': (['edb.edgeql.quote', 'edb.pgsql.common', 'edb.pgsql.dbops.base',
+             'edb.common.sourcecode'],
+            'quoted text can break out of its quotes'),
+    'C19': (['edb.server.config', 'edb.ir.statypes'],
+            'configuration is stored or rendered wrongly'),
+    'C20': (['edb.common.topological', 'edb.schema.ordering'],
+            'the ordering violates a dependency'),
+}
+
+
+def for_property(repo: Repo, ctx, prop: str) -> None:
+    if prop in SCOPE:
+        pf, why = SCOPE[prop]
+        battery(repo, ctx, f'{prop}.L', pf, why)
